@@ -344,9 +344,9 @@ PROPERTIES = {
         level='other',
         explanation=('Partial. Proved: the lazy-branch predicates (a cycle can be cut at IF / IFERROR / IFNA iff the deciding input is not on it; at IFS iff '
                      'no condition is) and the table of functions that declare one. Bounded: Johnson cycle enumeration equals brute force on every digraph with '
-                     '<= 4 nodes and random ones to 9 nodes; small cyclic workbooks in several cell orders.'),
+                     '<= 4 nodes (thorough: 5 nodes without self-loops) and random ones to 9 nodes; small cyclic workbooks in several cell orders and under 8 / 32 hash seeds.'),
         assumptions=[],
-        not_proved=['termination of loading / calculation in general, isolation and exact marking on arbitrary workbooks, independence of the hash seed: not decided (schedula)'],
+        not_proved=['termination of loading / calculation in general, isolation and exact marking on arbitrary workbooks, independence of the hash seed beyond the 41 workbooks x 8 / 32 seeds of stage B3: not decided (schedula)'],
         bounded_rule='graphs / workbooks; distinct = distinct cases',
     ),
 }
